@@ -181,7 +181,7 @@ TrRecover ==
 PredHolds(tx, rc) ==
   (pred.tx = tx /\ TracesOn) => (rc.status = (IF pred.ok THEN 1 ELSE 0) /\ rc.out = pred.out)
 
-Predictable(tx) == tx.gas = "ample" /\ Class(world, tx) = "full" /\ Code(world, IF tx.kind = "create" THEN "dead" ELSE tx.to) # "probe"
+Predictable(tx) == tx.gas \in {"ample", "max"} /\ Class(world, tx) = "full" /\ Code(world, IF tx.kind = "create" THEN "dead" ELSE tx.to) # "probe"
 
 TrEthCall ==
   /\ IsEv("EthCall")
@@ -202,7 +202,7 @@ TrEstimate ==
 TrCallMany ==
   /\ IsEv("CallMany")
   /\ Chk("res", E.res = "ok")
-  /\ (\A i \in DOMAIN E.txs : E.txs[i].gas = "ample" /\ E.txs[i].lc.fn = "none") =>
+  /\ (\A i \in DOMAIN E.txs : E.txs[i].gas \in {"ample", "max"} /\ E.txs[i].lc.fn = "none") =>
         LET r == EvalMany(world, E.txs)
             allok == \A i \in DOMAIN r : r[i].ok
         IN  /\ Chk("callmany-ok", E.ok = allok)
